@@ -21,7 +21,7 @@ def jobs(rng, thorough):
 
 
 def run(ctx: core.Ctx):
-    ctx.lean_stage(extra_props=("C06b",))
+    ctx.lean_stage(extra_props=("C06b", "Tie"))
     results = b2check.run_b2(ctx, jobs, ["C07", "L5run"], label="api initialisation")
     b2check.l5_fold(ctx, results, "YncaApi.initialize()")
     T = core.tables()
